@@ -1240,6 +1240,24 @@ impl Core {
 
 		let inner = Arc::new(CoreInner::new(Arc::clone(&opts))?);
 
+		match Self::new_with_inner(Arc::clone(&inner), opts) {
+			Ok(core) => Ok(core),
+			Err(e) => {
+				// The open failed after the directory lock was taken (WAL replay,
+				// clean-up, ...). The background tasks created on the way keep
+				// `inner` - and with it the lock - alive for as long as the runtime
+				// lives, although nobody owns the directory: release it now, so
+				// that the caller can open the directory again.
+				if let Ok(mut lockfile) = inner.lockfile.lock() {
+					let _ = lockfile.release();
+				}
+				Err(e)
+			}
+		}
+	}
+
+	fn new_with_inner(inner: Arc<CoreInner>, opts: Arc<Options>) -> Result<Self> {
+
 		// Create the write stall controller with the provider and thresholds
 		let thresholds = StallThresholds {
 			memtable_limit: opts.memtable_stall_threshold,
